@@ -245,8 +245,8 @@ Print Assumptions C15_varflow.
 (* non-vacuity on the concrete instance used by the correspondence run: a(2) then b; the
    target answers 200,200,500; b asserts status 200 -> steps 0,1,2 sent, step 2 flagged failed *)
 Example C15_order_stop_example :
-  let a := {| cq_name := [97]; cq_id := 0; cq_iter := 0; cq_pre := []; cq_post := [CJson [116] [116]]; cq_tmpl := TNone |} in
-  let b := {| cq_name := [98]; cq_id := 1; cq_iter := 0; cq_pre := [([112], PPost [97] [116])]; cq_post := [CStatus 200]; cq_tmpl := TNone |} in
+  let a := {| cq_name := [97]; cq_id := 0; cq_iter := 0; cq_pre := []; cq_post := [CJson [116] [116]]; cq_tmpl := TNone; cq_html := false |} in
+  let b := {| cq_name := [98]; cq_id := 1; cq_iter := 0; cq_pre := [([112], PPost [97] [116])]; cq_post := [CStatus 200]; cq_tmpl := TNone; cq_html := false |} in
   let r k st := {| rs_status := st; rs_json := true; rs_fields := [([116], [116; k])]; rs_hdr := None; rs_okbody := true |} in
   let w := {| w_arr := 0; w_script := [Some (r 48 200%Z); Some (r 49 200%Z); Some (r 50 500%Z)];
               w_dflt := fun _ => r 63 200%Z; w_iter := [] |} in
